@@ -69,6 +69,15 @@ RECURSIVE Put(_, _, _)
 Put(x, path, v) == IF path = <<>> THEN v
                    ELSE [x EXCEPT !.f[Head(path)] = Put(x.f[Head(path)], Tail(path), v)]
 
+RECURSIVE CanNav(_, _)
+CanNav(x, path) == IF path = <<>> THEN TRUE
+                   ELSE /\ x.k \in {"st", "arr"}
+                        /\ Head(path) \in DOMAIN x.f
+                        /\ CanNav(x.f[Head(path)], Tail(path))
+
+\* a reference that can be dereferenced (Go: non-nil, index in range)
+ValidRef(h, r)   == r.k = "ref" /\ CanNav(h[r.o].v, r.path)
+
 Deref(h, r)      == Nav(h[r.o].v, r.path)
 Assign(h, r, v)  == [h EXCEPT ![r.o].v = Put(h[r.o].v, r.path, v)]
 Alloc(h, site, v) == Append(h, [site |-> site, v |-> v])
@@ -187,12 +196,12 @@ Access(g, site, o) == Event("acc", g, o, site, "", FALSE)
 
 StepLoad(g, fr, i) == i.op = "load" /\
     LET r == Val(fr, i.a[1]) IN
-    IF r.k = "ref" THEN Upd(g, SetD(fr, i.d, Deref(heap, r)), heap, {})
+    IF ValidRef(heap, r) THEN Upd(g, SetD(fr, i.d, Deref(heap, r)), heap, {})
     ELSE Upd(g, PanicFrame(fr), heap, {})
 
 StepStore(g, fr, i) == i.op = "store" /\
     LET r == Val(fr, i.a[1]) IN
-    IF r.k = "ref" THEN Upd(g, Adv(fr), Assign(heap, r, Val(fr, i.a[2])), {})
+    IF ValidRef(heap, r) THEN Upd(g, Adv(fr), Assign(heap, r, Val(fr, i.a[2])), {})
     ELSE Upd(g, PanicFrame(fr), heap, {})
 
 StepFaddr(g, fr, i) == i.op \in {"faddr", "idxaddr"} /\
